@@ -6,8 +6,8 @@
    in general (finding C06-K22: names assigned in traversal order can swap on every trip). *)
 From Coq Require Import String.
 From Statham.Model Require Import Str Json Elem PyNum Validate Equality Names Tables Parser SerJson.
-From Statham.Generated Require Gen_signatures.
-From Statham.Model Require Import Spec6 Plain.
+From Statham.Generated Require Gen_signatures Gen_unicode Gen_reserved Gen_constants Gen_parser_tables.
+From Statham.Model Require Import Spec6 Plain RunHelpers.
 From Statham.Proofs Require Import Agree_tables ParserDefaultProof SerJsonProof NamesProof JsonEqProof C01Plain C01Parse C03Meaning C06Meaning.
 Local Open Scope string_scope.
 Local Open Scope list_scope.
@@ -63,3 +63,26 @@ Theorem C06_keywords_round_trip : forall c k, local_dsl (EK c k) ->
                         (k_contains k) (k_dependencies k) (k_additionalProperties k) (k_additionalItems k)).
 Proof. exact bridge_same. Qed.
 Print Assumptions C06_keywords_round_trip.
+
+(* finding K24: the round trip is NOT idempotent on every parsed schema.  An allOf member whose only
+   keyword is an empty `required` list is an element different from Element() (kept by the parser)
+   that the serializer writes as {} (it deletes an empty required list); the next parse drops it. *)
+Definition k24_cfg : pcfg :=
+  mkCfg (tbl_unicode Gen_unicode.alnum_ranges []) Gen_reserved.reserved
+        Gen_constants.unsupported_keywords Gen_parser_tables.comp_order_now.
+Definition k24_schema : json :=
+  JObj [(s_ "allOf", JArr [JObj [(s_ "required", JArr [])]; JObj [(s_ "type", JStr (s_ "string"))]])].
+Definition trip (S : json) : option json :=
+  match parse_element k24_cfg S [] with
+  | POk (e, _) => Some (ser_top true true [] e)
+  | PErr _ => None
+  end.
+Theorem C06_idempotence_refuted :
+  exists J1 J2, trip k24_schema = Some J1 /\ trip J1 = Some J2 /\ J1 <> J2 /\
+                J1 = JObj [(s_ "allOf", JArr [JObj []; JObj [(s_ "type", JStr (s_ "string"))]])] /\
+                J2 = JObj [(s_ "type", JStr (s_ "string"))].
+Proof.
+  eexists. eexists. split; [vm_compute; reflexivity|]. split; [vm_compute; reflexivity|].
+  split; [discriminate|]. split; reflexivity.
+Qed.
+Print Assumptions C06_idempotence_refuted.
